@@ -91,6 +91,8 @@ class GitConfigModel(object):
         if a and a[0] in ("--global", "--local"):
             scope = a[0][2:]
             a = a[1:]
+        if a and a[0] == "--get" and len(a) == 2:
+            a = a[1:]            # `git config --get name` == `git config name`
         elif a and a[0].startswith("--") and a[0] not in ("--unset", "--remove-section"):
             raise Inconclusive("git-config model: unsupported option %r" % (a[0],))
         self.log.append((scope, tuple(x if isinstance(x, str) else "<sym>" for x in a)))
